@@ -1,7 +1,7 @@
 """C17 - serialisation and the buffered network layer (narrow: wire grammar SIB, overload bijection, framing, LOCK, FIFO, ORD)."""
 import re
 
-from gsa.cfg import Fn, S, is_call, walk, lit
+from gsa.cfg import Fn, S, SN, cmp_pred, is_call, walk, lit
 from gsa.layout import Interp, Poly
 from gsa import lock as L
 
@@ -379,7 +379,10 @@ def network(ctx, fxs):
         det.append("assemble inserts %d runs per message" % len(ins))
     else:
         a = [S(x) for x in ins[0].get("a", [])]
-        m = re.search(r"&foo\.b\[(.*)\]$", a[2]) if len(a) > 2 else None
+        # the staging union and its members are named by the first run itself: &U.bytes[0] .. &U.bytes[width]
+        m0 = re.fullmatch(r"&(\w+)\.(\w+)\[0\]", a[1]) if len(a) > 2 else None
+        un, ub = (m0.group(1), m0.group(2)) if m0 else ("?", "?")
+        m = re.search(r"&%s\.%s\[(.*)\]$" % (re.escape(un), re.escape(ub)), a[2]) if m0 else None
         hi = None
         if m:
             for x in walk(ins[0]["a"][2]):
@@ -387,11 +390,12 @@ def network(ctx, fxs):
                     hi = x.get("c")
                 if isinstance(x, dict) and x.get("k") == "int" and hi is None:
                     hi = x.get("v")
-        widths["assemble: written"] = hi if (len(a) > 2 and a[1] == "&foo.b[0]") else "?%s" % a
+        widths["assemble: written"] = hi if m else "?%s" % a
         pa = [S(x) for x in ins[1].get("a", [])]
         if len(pa) < 3 or pa[1] != "m.data.begin()" or pa[2] != "m.data.end()":
             det.append("payload run is %s" % pa)
-        lenas = [e for _, e in fa.events(lambda e: e.get("k") == "assign" and e.get("lp") == "foo.a")]
+        lenas = [e for _, e in fa.events(lambda e: e.get("k") == "assign" and (e.get("lp") or "").startswith(un + ".") and
+                                          e.get("lp") != "%s.%s" % (un, ub))]
         if len(lenas) != 1 or S(lenas[0].get("rhs")) != "m.data.size()":
             det.append("prefix value is %s" % [S(e.get("rhs")) for e in lenas])
         # order: prefix value set, prefix inserted, payload inserted
@@ -617,12 +621,19 @@ def fence(ctx, fxs):
                 if h:
                     det.append("sends/receives after the phase was bumped")
             # send skipped only for self
-            selfc = lambda t: S(t) in ("(h == net.ID)",)
-            if fn.guarded_positions(send, selfc, False):
-                det.append("a host may send the fence message to itself")
             sa = [[S(x) for x in e.get("a", [])] for _, e in fn.events(send)]
             ra = [[S(x) for x in e.get("a", [])] for _, e in fn.events(recv)]
-            if any(len(a) < 2 or a[0] != "h" or "evilPhase" not in a[1] for a in sa):
+            # the destination is the variable of a loop over every host [0, Num)
+            hv = sa[0][0] if sa and sa[0] and re.fullmatch(r"\w+", sa[0][0]) else "h"
+            hloop = [b for b in fn.blocks.values() if (b.get("term") or {}).get("cls") in ("ForStmt", "WhileStmt") and
+                     b["term"].get("cond") and SN(lit(b["term"]["cond"])[0]) == "(%s < net.Num)" % hv]
+            h0 = [e.get("ip") for _, e in fn.events(lambda e: e.get("k") == "decl" and e.get("n") == hv)]
+            if len(hloop) != 1 or h0 != ["0"]:
+                det.append("the sends are not in a loop over every host [0, Num)")
+            selfc = cmp_pred(hv, "==", "net.ID")        # `if (h == ID) continue;` and `if (h != ID) { send }` alike
+            if fn.guarded_positions(send, selfc, False):
+                det.append("a host may send the fence message to itself")
+            if any(len(a) < 2 or a[0] != hv or "evilPhase" not in a[1] for a in sa):
                 det.append("send arguments %s" % sa)
             if any(not a or "evilPhase" not in a[0] for a in ra):
                 det.append("receive arguments %s" % ra)
